@@ -313,6 +313,14 @@ mod sx {
         /// url_cosmetic_resources of a page with the opposite generichide verdict
         CosmeticGh,
         Hidden,
+        /// check_network_request_subset(previously matched, force exceptions)
+        Subset(usize, bool, bool),
+        /// serialize_raw through the shared reference (answer: a digest of the bytes)
+        Serialize,
+        /// get_regex_debug_info through the shared reference (takes the regex manager; what it
+        /// reports depends on the schedule, so it answers nothing)
+        DebugInfo,
+        TagExists,
     }
     const URLS: &[&str] = &[
         "https://x.com/foo1bar", "https://a.ads.net/x", "https://x.com/baz/qux", "https://x.com/ad12", "https://x.com/plain", "https://x.com/tagged1rule",
@@ -404,6 +412,16 @@ mod sx {
                 v.sort();
                 format!("{:?}", v)
             }
+            Q::Subset(i, p, f) => format!("{:?}", Verdict::of(&e.check_network_request_subset(&Request::new(URLS[i], "https://y.com/", if i >= 6 { "xmlhttprequest" } else { "script" }).unwrap(), p, f))),
+            Q::Serialize => {
+                let b = e.serialize_raw().unwrap();
+                format!("{} bytes, digest {:x}", b.len(), adblock::utils::fast_hash(&String::from_utf8_lossy(&b)))
+            }
+            Q::DebugInfo => {
+                let _ = e.get_regex_debug_info();
+                "asked".to_string()
+            }
+            Q::TagExists => format!("{} {} {}", e.tag_exists("t"), e.tag_exists("u"), e.tag_exists("nope")),
         }
     }
 
@@ -421,6 +439,10 @@ mod sx {
             ("2x2-cosmetic", vec![vec![Cosmetic, Cosmetic], vec![CosmeticGh, Cosmetic]]),
             ("2x2-csp", vec![vec![Csp, Csp], vec![CspGh, Csp]]),
             ("2x2-redirect", vec![vec![Check(9), Check(10)], vec![Check(10), Check(9)]]),
+            // the other entry points that take a shared reference
+            ("2x2-subset", vec![vec![Subset(0, true, false), Check(8)], vec![Check(3), Subset(8, false, true)]]),
+            ("2x2-serialize", vec![vec![Serialize, Check(0)], vec![Check(3), Serialize]]),
+            ("2x2-debuginfo", vec![vec![DebugInfo, Check(0), TagExists], vec![Check(3), DebugInfo]]),
         ]
     }
 
